@@ -279,7 +279,8 @@ def impl_main(payload):
                 break
     SinglePointCrossover.__call__, SinglePointMutation.__call__ = ocx, omu
     agraph = agraph_runs(payload.get("agraph_runs", 0), payload["seed"], mon)
-    return dict(results=results, agraph=agraph)
+    scaled = scaled_runs(payload.get("scaled_runs", 0), payload["seed"], mon)
+    return dict(results=results, agraph=agraph, scaled=scaled)
 
 
 def agraph_runs(nruns, seed, mon):
@@ -368,20 +369,97 @@ def agraph_runs(nruns, seed, mon):
     return out
 
 
+def scaled_runs(nruns, seed, mon):
+    """MultipleValueChromosome genomes whose genes are close together on a relative scale (around 1e6 in unit steps, around
+    1e-9, booleans, huge indices): any "unchanged" test that is not exact equality leaves a changed genome with a stale
+    fitness.  Monitor and boundary oracle only; the fitness is an exact, injective function of the genome."""
+    import numpy as np
+    from bingo.chromosomes.multiple_values import SinglePointCrossover, SinglePointMutation, MultipleValueChromosomeGenerator
+    from bingo.evaluation.evaluation import Evaluation
+    from bingo.evaluation.fitness_function import FitnessFunction
+    from bingo.evolutionary_algorithms.age_fitness import AgeFitnessEA
+    from bingo.evolutionary_algorithms.generalized_crowding import GeneralizedCrowdingEA
+    from bingo.evolutionary_algorithms.mu_plus_lambda import MuPlusLambda
+    from bingo.evolutionary_algorithms.mu_comma_lambda import MuCommaLambda
+    from bingo.evolutionary_optimizers.island import Island
+    from bingo.selection.tournament import Tournament
+    from bingo.stats.hall_of_fame import HallOfFame
+    gens = [("around 1e6", lambda: 1.0e6 + float(np.random.randint(0, 4)), lambda v: int(round(float(v) - 1.0e6))),
+            ("around 1e-9", lambda: 1.0e-9 * float(np.random.randint(0, 4)), lambda v: int(round(float(v) * 1e9))),
+            ("index above 1e5", lambda: 123456 + int(np.random.randint(0, 4)), lambda v: int(v) - 123456),
+            ("boolean", lambda: bool(np.random.randint(0, 2)), lambda v: int(bool(v)))]
+    dec = [None]
+
+    def spell(values):
+        # the base-4 number spelled by the genes: exact and injective
+        return float(sum(dec[0](v) * 4 ** i for i, v in enumerate(values)))
+
+    class Spell(FitnessFunction):
+        def __call__(self, individual):
+            self.eval_count += 1
+            return spell(individual.values)
+    out = dict(runs=0, viol=[], samples=[])
+    mon.cur = None
+    mon.truth = lambda ind: spell(ind.values)
+    rng = random.Random(seed + 2)
+    for r in range(nruns):
+        s = rng.randrange(10 ** 6)
+        np.random.seed(s)
+        random.seed(s)
+        label, g, dec[0] = gens[r % 4]
+        kind = (r // 4) % 4
+        cx, mu = SinglePointCrossover(), SinglePointMutation(g)
+        ev = Evaluation(Spell())
+        cgen = MultipleValueChromosomeGenerator(g, 3)
+        if kind == 0:
+            ea = AgeFitnessEA(ev, cgen, cx, mu, 0.3, 0.6, 8)
+        elif kind == 1:
+            ea = GeneralizedCrowdingEA(ev, cx, mu, 0.3, 0.6)
+        elif kind == 2:
+            ea = MuPlusLambda(ev, Tournament(2), cx, mu, 0.3, 0.6, 8)
+        else:
+            ea = MuCommaLambda(ev, Tournament(2), cx, mu, 0.3, 0.6, 16)
+        isl = Island(ea, cgen, 8, hall_of_fame=HallOfFame(3))
+        mon.bad_reads = []
+        try:
+            for gno in range(rng.randint(3, 6)):
+                isl.evolve(1)
+                isl.get_best_individual()
+                members = list(isl.population) + list(isl.hall_of_fame)
+                for p in members:
+                    if p._fit_set and not mon.same(float(p._fitness), spell(p.values)):
+                        out["viol"].append("genes %s, algorithm kind %d, seed %d, generation %d: an individual marked evaluated carries %r, "
+                                           "the fitness of its genome %r is %r" % (label, kind, s, gno, p._fitness, list(p.values), spell(p.values)))
+                        break
+                if mon.bad_reads:
+                    out["viol"].append("genes %s kind %d seed %d generation %d: %s" % (label, kind, s, gno, mon.bad_reads[0]))
+                if out["viol"]:
+                    break
+        except Exception as e:  # noqa
+            out["viol"].append("scaled run (%s) seed %d kind %d raised %r" % (label, s, kind, e))
+        out["runs"] += 1
+        if len(out["samples"]) < 4:
+            out["samples"].append(dict(seed=s, kind=kind, genes=label))
+        if out["viol"]:
+            break
+    return out
+
+
 def check(rep, proof):
     runs = 250 if rep.tier == "quick" else 5000
-    rc, res, out, wall = vlib.run_impl("c05", dict(runs=runs, seed=rep.seed, agraph_runs=8 if rep.tier == "quick" else 120),
+    rc, res, out, wall = vlib.run_impl("c05", dict(runs=runs, seed=rep.seed, agraph_runs=8 if rep.tier == "quick" else 120,
+                                                   scaled_runs=48 if rep.tier == "quick" else 800),
                                        timeout=3400)
     if res is None:
         rep.violation("implementation harness crashed", dict(relation="corr_C05_pipeline", log=out[-3000:]), has_input=False)
         return
-    results, ag = res["results"], res["agraph"]
+    results, ag, sc = res["results"], res["agraph"], res["scaled"]
     steps = [r for r in results if r["kind"] == "step"]
     oracle_bad = [r for r in results if r["viol"]]
     pairs = [(coq_case(r["case"]), r["out"]) for r in steps]
     bad, log = vlib.coq_compare("c05", HEADER, RUNNER, pairs)
     rep.coverage.update(
-        evaluations=len(steps) + ag["runs"],
+        evaluations=len(steps) + ag["runs"] + sc["runs"],
         distinct_nontrivial=len({repr(r["case"]) for r in steps if len(r["case"]["specs"]) >= 2}),
         rule="real islands (value chromosomes, five algorithms incl. the base EvolutionaryAlgorithm with VarAnd/VarOr) driven through "
              "random sequences of generational steps, fitness resets, best-individual queries and hall-of-fame updates; every "
@@ -389,11 +467,13 @@ def check(rep, proof):
              "returned are observed) and the next generation's (genome, stored fitness, flag) triples compared; a class-level "
              "monitor flags every read of a missing/stale fitness inside selection, diagnostics, best-individual and hall-of-fame "
              "phases; at every boundary each flagged individual's stored fitness is recomputed independently. AGraph + "
-             "ExplicitRegression + scipy local optimisation islands/archipelagos: monitor and boundary oracle only",
+             "ExplicitRegression + scipy local optimisation islands/archipelagos: monitor and boundary oracle only; the same for value "
+             "chromosomes whose genes lie close together on a relative scale (around 1e6, around 1e-9, indices above 1e5, booleans)",
         samples=[steps[0]["case"]] + ag["samples"][:2] if steps else ag["samples"][:2],
         correspondence=dict(generational_steps=len(steps), disagreements=len(bad)),
         agraph=dict(runs=ag["runs"], violations=len(ag["viol"])),
-        oracle_violations=len(oracle_bad) + len(ag["viol"]),
+        scaled_genes=dict(runs=sc["runs"], violations=len(sc["viol"]), samples=sc["samples"]),
+        oracle_violations=len(oracle_bad) + len(ag["viol"]) + len(sc["viol"]),
         distribution=dict((EAS[k], sum(1 for r in steps if r["case"]["ea"] == k)) for k in range(5)),
     )
     rep.assumptions += [
@@ -407,6 +487,9 @@ def check(rep, proof):
         rep.violation("; ".join(r["viol"][:3]), dict(case=r["case"], oracle=r["viol"]))
     elif ag["viol"]:
         rep.violation(ag["viol"][0], dict(kind="AGraph island run", detail=ag["viol"][:4]))
+    elif sc["viol"]:
+        rep.violation(sc["viol"][0], dict(kind="value-chromosome island run with closely spaced genes", detail=sc["viol"][:4],
+                                          how="tools/props/c05.py scaled_runs (seed %d)" % rep.seed))
     elif bad:
         first = bad[0]
         j = None if isinstance(first, tuple) else first
